@@ -32,9 +32,9 @@ theorem every_decrypted_request_is_https_secure_with_tls (j k : Nat) (rq : ReqB)
     (h : at? sd base {} 0 items k = some (s', it)) :
     Ev.reqmod k (base + k) true true true s'.tlsId ∈ runConn sd base items := by
   have hsec := at?_after_mitm sd base {} 0 items j k s' it rq rs (by omega) hjk (by simpa using hj) h
-  obtain ⟨h1, h2, h3⟩ := hsec
+  obtain ⟨h2, h3⟩ := hsec
   have := reqmod_reflects_state sd s' k (base + k) it
-  rw [h1, h2] at this
+  simp only [h2, Bool.or_true] at this
   exact mem_run_of_at? sd base {} 0 [] items k s' it h _ (by simpa using this)
 
 /-- … and is forwarded upstream over TLS, never in cleartext: every upstream event of such a request
@@ -45,7 +45,7 @@ theorem upstream_over_tls_and_hijack_decrypted (j k : Nat) (rq : ReqB) (rs : Res
     (∀ t, Ev.upstream k t ∈ (handleItem sd s' k (base + k) it).1 → t = true) ∧
     (∀ t tid, Ev.hijacked k t tid ∈ (handleItem sd s' k (base + k) it).1 → t = true) := by
   have hsec := at?_after_mitm sd base {} 0 items j k s' it rq rs (by omega) hjk (by simpa using hj) h
-  obtain ⟨h1, h2, h3⟩ := hsec
+  obtain ⟨h2, h3⟩ := hsec
   constructor <;> intro t <;> item_cases it then (try (intro ht; simp_all))
 
 /-- The security state never degrades: once secure, every later request of the connection is. -/
